@@ -1,2 +1,497 @@
-// Package c05 decides C05 (see DESIGN.md section 4). Not built yet.
+// Package c05 decides C05 (dead-code elimination never changes behaviour).
+//
+// spec/Dce.tla models the selector of compiler/internal/dce step by step and
+// defines the reference alive set (least fixpoint) of a declaration graph;
+// spec/DceTopo.tla is the reference semantics of "dispatch topologies" (what a
+// small Go program prints, which declarations it needs at run time) together
+// with the declaration graph the compiler's naming scheme yields for it.
+//
+//  1. TLC checks the selector model on every small declaration graph of a
+//     configured space under every pop order and every dependency order, and on
+//     seeded random graphs of 5-6 declarations (least fixpoint, order
+//     independence, closure under deps, no lost info, termination).
+//  2. TLC enumerates dispatch topologies (and package-variable scenarios) with
+//     the predicted output, checking Executed <= Needed <= Alive on each.  The
+//     harness renders every scenario as a Go package, batches them into
+//     programs, compiles each program once and links it twice -- normally and
+//     with every Decl.Dce().SetAsAlive() -- runs both under Node and the same
+//     program natively (specification guard).  Both observations must equal the
+//     prediction.  go:linkname scenarios and programs of the MiniGo generator
+//     are run the same way (DCE on/off must agree).
+//  3. Conformance: the REAL per-declaration DCE data (Dce().String()) of built
+//     programs is loaded into Dce.tla as constants; the alive set TLC computes by
+//     running the model must equal what the real selector kept
+//     (compiler.VerifAliveDecls) and what was emitted.  A mismatch without a
+//     behavioural difference is MODEL-DRIFT (exit 0).
 package c05
+
+import (
+	"encoding/json"
+	"fmt"
+	"math/rand"
+	"os"
+	"path/filepath"
+	"sort"
+	"strings"
+	"sync"
+	"time"
+
+	"verif/core"
+	"verif/gjs"
+	"verif/reg"
+	"verif/tlcx"
+)
+
+func init() {
+	maybeWorker()
+	reg.Register("C05", "model_checking", Run)
+}
+
+var (
+	allVias     = []string{"scall", "mval", "mexpr", "defer", "icall", "imval", "imexpr", "assert", "anonassert", "tswitch", "gcall", "iembed"}
+	allKinds    = []string{"struct", "basic", "generic"}
+	allCarriers = []string{"self", "embedval", "embedptr", "localval", "localptr", "localgenval"}
+	allD2s      = []string{"none", "dead", "alive", "conv", "diffsig"}
+	allI2s      = []string{"none", "diffsig", "embeds"}
+	allWheres   = []string{"run", "init", "varinit", "closurevar"}
+	allVarKinds = []string{"const", "funclit", "mapread", "call", "closurecall", "methodcall", "recv", "convcall", "assertpanic", "indexpanic", "divpanic", "nilderef", "slicearrpanic"}
+)
+
+const cfgFull = "SPECIFICATION Spec\nINVARIANT Sound Indexed AtDone Emit\nPROPERTY Terminates\nCHECK_DEADLOCK FALSE\n"
+const cfgSafety = "SPECIFICATION Spec\nINVARIANT Sound Indexed AtDone Emit\nCHECK_DEADLOCK FALSE\n"
+
+func params(mode string, over map[string]any) string {
+	m := map[string]any{
+		"mode": mode, "popAny": false, "depAny": false, "checkLeast": false, "out": "o",
+		"names": []string{}, "mnames": []string{}, "roots": []string{}, "n": 0, "graphs": []any{},
+		"vias": []string{}, "kinds": []string{}, "carriers": []string{}, "d2s": []string{}, "i2s": []string{}, "wheres": []string{}, "varkinds": []string{},
+	}
+	for k, v := range over {
+		m[k] = v
+	}
+	b, _ := json.Marshal(m)
+	return string(b)
+}
+
+// mGraph / mDecl: a declaration graph handed to Dce.tla (mode explicit).
+type mDecl struct {
+	ID    string   `json:"id"`
+	Of    string   `json:"of"`
+	Mf    string   `json:"mf"`
+	Deps  []string `json:"deps"`
+	Alive bool     `json:"alive"`
+	Link  bool     `json:"link"`
+}
+type mGraph struct {
+	ID    string  `json:"id"`
+	Decls []mDecl `json:"decls"`
+}
+
+func randomGraphs(rng *rand.Rand, n int) []mGraph {
+	names := []string{"a", "b", "c", "d", "e"}
+	mnames := []string{"m", "n"}
+	all := append(append([]string{}, names...), mnames...)
+	var out []mGraph
+	for g := 0; g < n; g++ {
+		nd := 5 + rng.Intn(2)
+		gr := mGraph{ID: fmt.Sprintf("r%d", g)}
+		for i := 0; i < nd; i++ {
+			d := mDecl{Deps: []string{}}
+			switch x := rng.Intn(10); {
+			case x < 1 || i == 0:
+				// unnamed
+			case x < 6:
+				d.Of = names[rng.Intn(len(names))]
+			default:
+				d.Of = names[rng.Intn(len(names))]
+				d.Mf = mnames[rng.Intn(len(mnames))]
+			}
+			set := map[string]bool{}
+			for k := rng.Intn(4); k > 0; k-- {
+				set[all[rng.Intn(len(all))]] = true
+			}
+			for k := range set {
+				d.Deps = append(d.Deps, k)
+			}
+			sort.Strings(d.Deps)
+			switch x := rng.Intn(20); {
+			case x < 2:
+				d.Alive = true
+			case x < 5:
+				d.Link = true
+			}
+			gr.Decls = append(gr.Decls, d)
+		}
+		out = append(out, gr)
+	}
+	return out
+}
+
+func pickN(rng *rand.Rand, from []string, n int) []string {
+	p := rng.Perm(len(from))
+	var out []string
+	for _, i := range p[:n] {
+		out = append(out, from[i])
+	}
+	sort.Strings(out)
+	return out
+}
+
+func readDouble(path string, each func(inner []byte) error) error {
+	return tlcx.ReadNDJSON(path, func(raw json.RawMessage) error {
+		var inner string
+		if err := json.Unmarshal(raw, &inner); err != nil {
+			return err
+		}
+		return each([]byte(inner))
+	})
+}
+
+type checkState struct {
+	mu          sync.Mutex
+	evals       int
+	discards    int
+	drift       []string
+	behaviour   map[string]bool // unit keys with a behavioural difference
+	staticCmp   int
+	emitCmp     int
+	graphsReal  int
+	reachKinds  map[string]int
+	discardKeys []string
+}
+
+// Run is the C05 check.
+func Run(c *core.Ctx, pool *gjs.Pool) {
+	c.Assumef("programs observe themselves with println of ASCII tokens; every method, function and initialiser of a scenario prints a token that identifies the declaration that ran")
+	c.Assumef("the all-alive link marks every compiler.Decl of every archive alive (Decl.Dce().SetAsAlive()) and links the SAME archives a second time; both links go through the real compiler.WriteProgramCode")
+	c.Assumef("go:linkname is exercised in user packages only (no importable standard package of this sandbox uses it); reflection is represented by the type metadata used for assertions and type switches (package reflect does not compile here)")
+	c.Assumef("Needed of DceTopo.tla is static run-time reachability (rapid type analysis for interface calls); Executed <= Needed is checked by TLC on every topology")
+	rng := rand.New(rand.NewSource(c.Seed))
+	st := &checkState{behaviour: map[string]bool{}, reachKinds: map[string]int{}}
+	nlp := c.Workers
+	if nlp > 12 {
+		nlp = 12
+	}
+	lp := newLinkPool(nlp)
+	defer lp.Close()
+	r := &runner{c: c, lp: lp}
+
+	// ------------------------------------------------------------------
+	// 1. the selector model on small graphs (background)
+	// ------------------------------------------------------------------
+	var bg sync.WaitGroup
+	type enumCfg struct {
+		name   string
+		names  []string
+		mnames []string
+		roots  []string
+		n      int
+	}
+	enums := []enumCfg{
+		{"two-names-2", []string{"a", "b"}, []string{"m"}, []string{"none", "link", "alive"}, 2},
+		{"one-name-3", []string{"a"}, []string{"m"}, []string{"none", "link", "alive"}, 3},
+	}
+	if c.Thorough() {
+		enums = []enumCfg{
+			{"two-names-3", []string{"a", "b"}, []string{"m"}, []string{"none", "link"}, 3},
+			{"one-name-4", []string{"a"}, []string{"m"}, []string{"none", "link", "alive"}, 4},
+		}
+	}
+	enumStates := make([]int, len(enums))
+	for i, e := range enums {
+		i, e := i, e
+		bg.Add(1)
+		go func() {
+			defer bg.Done()
+			res, err := tlcx.Run(c, tlcx.Opts{Module: "Dce", Cfg: cfgFull, Workers: 4, Timeout: 25 * time.Minute, HeapMB: 6144,
+				Files: map[string]string{"c05_params.json": params("enum", map[string]any{"popAny": true, "depAny": true, "checkLeast": true,
+					"names": e.names, "mnames": e.mnames, "roots": e.roots, "n": e.n})}})
+			if tlcx.MustComplete(c, res, err, "Dce enum "+e.name) {
+				enumStates[i] = res.Distinct
+			}
+		}()
+	}
+	nrand := c.Pick(120, 1500)
+	rgs := randomGraphs(rng, nrand)
+	bg.Add(1)
+	go func() {
+		defer bg.Done()
+		res, err := tlcx.Run(c, tlcx.Opts{Module: "Dce", Cfg: cfgFull, Workers: 4, Timeout: 25 * time.Minute, HeapMB: 6144,
+			Files: map[string]string{"c05_params.json": params("explicit", map[string]any{"popAny": true, "depAny": true, "checkLeast": true, "graphs": rgs})}})
+		if tlcx.MustComplete(c, res, err, "Dce random graphs") {
+			c.Set("random_graphs_all_orders", nrand)
+		}
+	}()
+
+	// ------------------------------------------------------------------
+	// 2. scenarios with predictions
+	// ------------------------------------------------------------------
+	kinds, d2s, i2s := allKinds, allD2s, allI2s
+	if !c.Thorough() {
+		kinds = pickN(rng, allKinds, 1)
+		d2s = append([]string{"dead"}, pickN(rng, []string{"none", "alive", "conv", "diffsig"}, 1)...)
+		i2s = append([]string{"none"}, pickN(rng, []string{"diffsig", "embeds"}, 1)...)
+	}
+	var topos []*topoScen
+	var vars []*varScen
+	var fg sync.WaitGroup
+	fg.Add(2)
+	go func() {
+		defer fg.Done()
+		res, err := tlcx.Run(c, tlcx.Opts{Module: "Dce", Cfg: cfgSafety, Workers: 8, Timeout: 25 * time.Minute, HeapMB: 6144,
+			Files: map[string]string{"c05_params.json": params("topo", map[string]any{"vias": allVias, "kinds": kinds, "carriers": allCarriers, "d2s": d2s, "i2s": i2s, "wheres": allWheres})}})
+		if !tlcx.MustComplete(c, res, err, "Dce topologies") {
+			return
+		}
+		seen := map[string]bool{}
+		err = readDouble(filepath.Join(res.Dir, "o.topo.ndjson"), func(b []byte) error {
+			var s topoScen
+			if err := json.Unmarshal(b, &s); err != nil {
+				return err
+			}
+			if !seen[s.P.key()] {
+				seen[s.P.key()] = true
+				topos = append(topos, &s)
+			}
+			return nil
+		})
+		if err != nil {
+			c.Infra(fmt.Errorf("reading topologies: %v", err))
+		}
+	}()
+	go func() {
+		defer fg.Done()
+		res, err := tlcx.Run(c, tlcx.Opts{Module: "Dce", Cfg: cfgSafety, Workers: 2, Timeout: 10 * time.Minute,
+			Files: map[string]string{"c05_params.json": params("vars", map[string]any{"varkinds": allVarKinds, "checkLeast": true})}})
+		if !tlcx.MustComplete(c, res, err, "Dce variables") {
+			return
+		}
+		seen := map[string]bool{}
+		err = readDouble(filepath.Join(res.Dir, "o.vars.ndjson"), func(b []byte) error {
+			var s varScen
+			if err := json.Unmarshal(b, &s); err != nil {
+				return err
+			}
+			if !seen[s.P.key()] {
+				seen[s.P.key()] = true
+				vars = append(vars, &s)
+			}
+			return nil
+		})
+		if err != nil {
+			c.Infra(fmt.Errorf("reading variable scenarios: %v", err))
+		}
+	}()
+	fg.Wait()
+	if c.InfraErr != nil {
+		bg.Wait()
+		return
+	}
+	c.Phase("tlc_scenarios")
+	sort.Slice(topos, func(i, j int) bool { return topos[i].P.key() < topos[j].P.key() })
+	sort.Slice(vars, func(i, j int) bool { return vars[i].P.key() < vars[j].P.key() })
+	c.Set("topologies", len(topos))
+	c.Set("variable_scenarios", len(vars))
+	c.Set("topology_dimensions", map[string]any{"vias": allVias, "kinds": kinds, "carriers": allCarriers, "d2s": d2s, "i2s": i2s, "wheres": allWheres})
+
+	// units
+	var batchable, singles []*unit
+	for i, s := range topos {
+		tag := fmt.Sprintf("t%d", i)
+		batchable = append(batchable, &unit{tag: tag, kind: "topo", key: s.P.key(), files: map[string]string{tag + "/t.go": renderTopo(s, tag)},
+			imports: []string{"vp/" + tag}, call: s.runExpr(tag), want: s.Out, wantEnd: "exit", topo: s})
+		c.Distinct(s.P.key())
+		st.reachKinds[s.P.Via]++
+	}
+	for i, s := range vars {
+		tag := fmt.Sprintf("v%d", i)
+		u := &unit{tag: tag, kind: "var", key: s.P.key(), files: map[string]string{tag + "/v.go": renderVar(s, tag)},
+			imports: []string{"vp/" + tag}, call: tag + ".Run", want: s.Out, wantEnd: s.End, vs: s}
+		if s.End == "panic" {
+			singles = append(singles, u)
+		} else {
+			batchable = append(batchable, u)
+		}
+		c.Distinct(s.P.key())
+		st.reachKinds["varinit:"+s.P.Kind]++
+	}
+	for i, l := range linkScens() {
+		l := l
+		tag := fmt.Sprintf("lk%d", i)
+		files, want := renderLink(l, tag)
+		batchable = append(batchable, &unit{tag: tag, kind: "link", key: l.key(), files: files, imports: []string{"vp/" + tag}, call: tag + ".Run", want: want, wantEnd: "exit", link: &l})
+		c.Distinct(l.key())
+		st.reachKinds["linkname"]++
+	}
+	if !c.Thorough() {
+		// the panicking initialisers each need a program of their own: the quick
+		// tier runs the unread ones (the defect F4 shapes) and a seeded few of the rest
+		var keep []*unit
+		for _, u := range singles {
+			if !u.vs.P.Used || rng.Intn(4) == 0 {
+				keep = append(keep, u)
+			}
+		}
+		singles = keep
+	}
+	rng.Shuffle(len(batchable), func(i, j int) { batchable[i], batchable[j] = batchable[j], batchable[i] })
+	// conformance programs are small (their whole declaration graph goes to TLC)
+	nconf := c.Pick(6, 40)
+	const confSize = 10
+	var groups [][]*unit
+	var dumpFlags []bool
+	rest := batchable
+	for i := 0; i < nconf && len(rest) >= confSize; i++ {
+		groups = append(groups, rest[:confSize])
+		dumpFlags = append(dumpFlags, true)
+		rest = rest[confSize:]
+	}
+	const per = 120
+	for len(rest) > 0 {
+		n := per
+		if n > len(rest) {
+			n = len(rest)
+		}
+		groups = append(groups, rest[:n])
+		dumpFlags = append(dumpFlags, true)
+		rest = rest[n:]
+	}
+	for _, u := range singles {
+		groups = append(groups, []*unit{u})
+		dumpFlags = append(dumpFlags, true)
+	}
+	results := make([][]triple, len(groups))
+	c.ParMap(len(groups), func(i int) {
+		results[i] = r.runUnits(groups[i], dumpFlags[i])
+	})
+	if c.InfraErr != nil {
+		bg.Wait()
+		return
+	}
+	c.Phase("programs")
+	var realGraphs []mGraph
+	realSel := map[string][]bool{}
+	for gi, ts := range results {
+		for _, t := range ts {
+			decide(c, st, t)
+		}
+		if len(ts) == 0 {
+			continue
+		}
+		// static comparisons on the real DCE data of the program
+		if ts[0].dump != nil && ts[0].progUnits == len(groups[gi]) {
+			staticCompare(c, st, ts)
+			if gi < nconf || len(groups[gi]) == 1 {
+				if g, sel, err := toGraph(fmt.Sprintf("real%d", gi), ts[0].dump); err != nil {
+					c.Infra(err)
+				} else {
+					realGraphs = append(realGraphs, g)
+					realSel[g.ID] = sel
+				}
+			}
+		}
+	}
+	// ------------------------------------------------------------------
+	// 3. MiniGo programs: DCE on/off must agree
+	// ------------------------------------------------------------------
+	runMiniGo(c, st, r, rng)
+	c.Phase("minigo")
+
+	// ------------------------------------------------------------------
+	// 4. conformance of the selector model with the real selector
+	// ------------------------------------------------------------------
+	conformance(c, st, realGraphs, realSel)
+	c.Phase("conformance")
+	bg.Wait()
+	c.Phase("selector_model")
+	total := 0
+	for _, n := range enumStates {
+		total += n
+	}
+	c.Set("selector_small_graph_states", total)
+	var enames []string
+	for _, e := range enums {
+		enames = append(enames, fmt.Sprintf("%s(names=%v,mnames=%v,roots=%v,n<=%d)", e.name, e.names, e.mnames, e.roots, e.n))
+	}
+	c.Set("selector_small_graph_spaces", enames)
+	c.Set("evaluations", st.evals)
+	c.Set("traces_validated_against_impl", st.evals)
+	c.Set("spec_guard_discards", st.discards+c.Get("spec_guard_discards"))
+	c.Set("programs", r.nprg)
+	c.Set("static_decl_comparisons", st.staticCmp)
+	c.Set("emission_comparisons", st.emitCmp)
+	c.Set("real_graphs_loaded_into_model", st.graphsReal)
+	c.Set("reach_kinds", st.reachKinds)
+	c.Set("model_drift", len(st.drift))
+	if len(st.drift) > 0 {
+		d := st.drift
+		if len(d) > 10 {
+			d = d[:10]
+		}
+		c.Set("model_drift_samples", d)
+	}
+	c.Set("exhaustive", c.Thorough())
+	c.Set("checker_cmd", "tlc Dce (modes enum, explicit, topo, vars of c05_params.json; INVARIANT Sound Indexed AtDone Emit; PROPERTY Terminates on the small-graph runs)")
+	c.Set("rule", "a case is one scenario (dispatch topology of DceTopo.tla: reach kind x exported x pointer receiver x type kind x carrier/embedding x distractor type x second interface x holder; package-variable scenario: initialiser kind x form x read or not; go:linkname scenario; MiniGo program x input) observed in the normal link and in the all-alive link of the same archives; an evaluation = one (scenario, link) observation compared with the TLC prediction (MiniGo: with each other) after the native guard agreed; distinct = distinct scenario keys; all are non-trivial (each reaches its target only through the stated mechanism). The quick tier enumerates a VERIF_SEED slice of the kind/distractor/second-interface dimensions, the thorough tier all of them.")
+	for i, t := range topos {
+		if i%(len(topos)/3+1) == 0 {
+			c.Sample(map[string]any{"scenario": t.P.key(), "predicted": t.Out, "model_alive": t.Alive})
+		}
+	}
+	if len(st.discardKeys) > 0 {
+		c.Set("spec_guard_discard_samples", st.discardKeys)
+	}
+	_ = os.Remove
+	_ = strings.Join
+	_ = pool
+}
+
+// decide applies the verdict rule to one scenario.
+func decide(c *core.Ctx, st *checkState, t triple) {
+	u := t.u
+	if !t.nat.matches(u.want, u.wantEnd) {
+		st.mu.Lock()
+		st.discards++
+		if len(st.discardKeys) < 5 {
+			st.discardKeys = append(st.discardKeys, fmt.Sprintf("%s: predicted %v end=%s, reference toolchain %s", u.key, u.want, u.wantEnd, t.nat))
+		}
+		st.mu.Unlock()
+		return
+	}
+	st.mu.Lock()
+	st.evals += 2
+	st.mu.Unlock()
+	okJS, okAll := t.js.matches(u.want, u.wantEnd), t.all.matches(u.want, u.wantEnd)
+	if okJS && okAll {
+		return
+	}
+	st.mu.Lock()
+	st.behaviour[u.key] = true
+	st.mu.Unlock()
+	var what string
+	switch {
+	case !okJS && okAll:
+		what = "the normal link (dead-code elimination on) differs from the all-alive link and from Go"
+	case okJS && !okAll:
+		what = "the all-alive link differs from the normal link and from Go"
+	default:
+		what = "both links differ from Go"
+	}
+	files := replayFiles(u)
+	files["observed_dce.txt"] = t.js.String() + "\n" + t.jsRaw + "\n"
+	files["observed_all_alive.txt"] = t.all.String() + "\n" + t.allRaw + "\n"
+	files["observed_native.txt"] = t.nat.String() + "\n"
+	c.Report(core.Case{Keys: classify(t), Files: files,
+		Summary: fmt.Sprintf("%s: %s. predicted (= native Go) %v end=%s; with DCE: %s; all alive: %s", u.key, what, u.want, u.wantEnd, t.js, t.all)})
+}
+
+// classify returns known-finding classifier keys (narrow: one per initialiser kind).
+func classify(t triple) []string {
+	u := t.u
+	if u.kind == "var" && u.vs.Gap && !u.vs.P.Used && t.all.matches(u.want, u.wantEnd) && t.js.end == "exit" {
+		// defect F4: the initialiser of a variable nobody reads can only panic (no call,
+		// no receive): it is dropped with the variable and the panic does not happen
+		return []string{"unread_var_initialiser_panic_dropped:" + u.vs.P.Kind}
+	}
+	return nil
+}
